@@ -4,7 +4,7 @@ import ast
 from .. import legacy, tablechecks
 from ..cfg import CFG
 from ..report import AnalysisError, norm
-from ..srcmodel import own_nodes
+from ..srcmodel import own_nodes, own_statements
 from ..terms import Resolver, alternatives, show, walk
 
 PROP = "C14"
@@ -39,6 +39,7 @@ def run(rep, ctx):
     rep.run_rule("C14.R6", "shipped tables: every category is consistent with its quantity type (exhaustive)", r6_categories, ctx)
     rep.run_rule("C14.R7", "shipped default table: every unit resolves to a category of its own quantity type; symbols unique (exhaustive)", r7_units, ctx)
     from . import c12
+    rep.run_rule("C14.R9", "AddCategory: every path that registers a caller-given list of valid units passes the membership test of each unit in the quantity type's units", r9_valid_units, ctx)
     rep.run_rule("C14.R8", "registration code: every given or inherited default value is asserted against the final limits; derived defaults only from inclusive limits; default unit drawn from the quantity type", c12.r6_registration, ctx, "C14.R8")
     rep.not_decided += [
         "step-by-step agreement with a reference model for arbitrary argument values (only ordering, ownership and table facts are decided)",
@@ -303,3 +304,62 @@ def r7_units(rep, ctx):
     tablechecks.check_unit_resolution(rep, "C14.R7", tb)
     tablechecks.check_unit_resolution(rep, "C14.R7", ctx.tables["simple"])
     rep.floor("C14.R7", "units", len(tb.units), 1000)
+
+
+# ------------------------------------------------------------------------------------------------
+def r9_valid_units(rep, ctx):
+    """Must-pass-through: the CategoryInfo(...) registration is reached either through the loop that tests
+    every element of `valid_units` for membership in the quantity type's units (raising otherwise), or
+    over an edge on which `valid_units is None` holds (nothing was given; the quantity type's own units apply)."""
+    from ..facts import norm_fact, none_fact
+
+    m = ctx.model
+    fn = m.method("UnitDatabase", "AddCategory")
+    cfg = CFG(fn.node)
+    res = Resolver(m, fn)
+    if "valid_units" not in fn.params:
+        raise AnalysisError("AddCategory has no valid_units parameter")
+    ctor = [c for c in own_nodes(fn.node) if isinstance(c, ast.Call) and isinstance(c.func, ast.Name) and c.func.id == "CategoryInfo"]
+    if len(ctor) != 1:
+        raise AnalysisError("AddCategory: the CategoryInfo(...) construction was not found")
+    # the validating loops: iterate valid_units (possibly through enumerate) and raise on `<element> not in <units of the quantity type>`
+    loops = []
+    for lp in own_statements(fn.node):
+        if not isinstance(lp, ast.For):
+            continue
+        if not any(isinstance(x, ast.Name) and x.id == "valid_units" for x in ast.walk(lp.iter)):
+            continue
+        L = cfg.node_of(lp)
+        ok = False
+        for nid in cfg.nodes("test"):
+            e = cfg.ast[nid]
+            inside = False
+            p_ = getattr(e, "_parent", None)
+            while p_ is not None and p_ is not fn.node:
+                if p_ is lp:
+                    inside = True
+                p_ = getattr(p_, "_parent", None)
+            if not inside:
+                continue
+            for lab in ("T", "F"):
+                k, l_, r_, pos = norm_fact(e, lab == "T")
+                if k == "in" and not pos and any(s_[0] == "call" and s_[1][0] in ("field", "attr") and (s_[1][1] if s_[1][0] == "field" else s_[1][2]) == "GetUnits" for s_ in walk(res.term(r_))):
+                    if cfg.must_raise_from([(nid, lab)]):
+                        ok = True
+        if ok:
+            loops.append(L)
+    if not loops:
+        rep.bad("C14.R9", "AddCategory:valid-units-validated", "AddCategory has no loop that rejects a valid unit outside the quantity type's units: a category can list units of another quantity type", node=ctor[0], fn=fn)
+        return
+    none_edges = set()
+    for nid in cfg.nodes("test"):
+        e = cfg.ast[nid]
+        for lab in ("T", "F"):
+            nf = none_fact(norm_fact(e, lab == "T"))
+            if nf and isinstance(nf[0], ast.Name) and nf[0].id == "valid_units" and nf[1]:
+                none_edges |= {(nid, b_, l_) for (b_, l_) in cfg.succ[nid] if l_ == lab}
+    C = cfg.node_of(ctor[0])
+    r = cfg.reach(cfg.ENTRY, avoid=set(loops), avoid_edges=none_edges)
+    rep.check(C not in r, "C14.R9", "AddCategory:valid-units-validated", "every path to the registration validates the given valid units, or none were given",
+              "a path reaches CategoryInfo(...) with a caller-given valid_units list that was never tested against the units of the quantity type (the validation is skipped for some argument form): a category can list units of another quantity type",
+              node=ctor[0], fn=fn)
